@@ -21,12 +21,15 @@ class ScriptDivergence(Exception):
     """replaying a recorded prefix met a pick with fewer outcomes than the scripted index"""
 
 
+_SHARED_REAL = np.random.default_rng(0)
+
+
 class ChoiceRng:
     def __init__(self, script=(), random_fill=0.5, random_queue=None):
         self.script = list(script)
         self.log = []  # (n_outcomes, chosen)
         self.calls = []  # method names, for draw counting
-        self._real = np.random.default_rng(0)
+        self._real = _SHARED_REAL  # only used for argument validation / result templates
         self.random_fill = random_fill
         self.random_queue = list(random_queue) if random_queue is not None else None
         self.random_calls = 0
